@@ -1,5 +1,5 @@
 (* C14 -- Changing the maximum size on open. *)
-From VF Require Import Region Freelist Alloc RegionProofs AllocProofs.
+From VF Require Import Region Freelist Alloc RegionProofs AllocProofs ShrinkProofs.
 
 (* growing: exactly the additional pages become allocatable *)
 Theorem C14_grow_exact : forall a newMax, 0 < maxPages a -> a_end (data a) <= maxPages a -> maxPages a <= newMax ->
@@ -15,6 +15,61 @@ Theorem C14_grow_skips_overflow_area : forall oldMax newMax dataEnd metaEnd id,
   ~ (e <= id /\ (newMax = 0 \/ id < newMax)).
 Proof. exact grow_skips_overflow_area. Qed.
 Print Assumptions C14_grow_skips_overflow_area.
+
+(* ---- after shrinking: the file extends beyond its limit ---- *)
+(* what a commit gives back to the file system is exactly a run of free pages at the end of the file and at or
+   beyond the limit: every page in use (in neither free list) stays inside the file, nothing is added to a free
+   list, the file never grows and never shrinks below the limit (D18) *)
+Theorem C14_commit_keeps_used_pages_in_file :
+  forall newData newMeta mx dEnd mEnd lo,
+  wfl lo newData -> wfl lo newMeta -> disjoint_l newData newMeta ->
+  (forall id, inl id newData -> id < dEnd) -> (forall id, inl id newMeta -> id < mEnd) -> dEnd <= mEnd ->
+  forall metaList dataList dEnd2 mEnd2 ovfFreed dataFreedN,
+  commit_ends newData newMeta mx dEnd mEnd = (metaList, dataList, dEnd2, mEnd2, ovfFreed, dataFreedN) ->
+  let fileEnd := Z.max dEnd2 mEnd2 in
+  (forall id, inl id metaList <-> inl id newMeta /\ id < mEnd - ovfFreed) /\
+  (forall id, inl id dataList -> inl id newData) /\
+  (forall id, inl id newData -> inl id dataList \/ fileEnd <= id) /\
+  (forall id, mEnd - ovfFreed <= id < mEnd -> inl id newMeta) /\
+  (forall id, id < mEnd -> ~ inl id newData -> ~ inl id newMeta -> id < fileEnd) /\
+  (forall id, inl id dataList -> id < dEnd2) /\
+  (forall id, inl id metaList -> id < fileEnd) /\
+  wfl lo metaList /\ wfl lo dataList /\
+  fileEnd <= mEnd /\ (fileEnd < mEnd -> mx <> 0 /\ mx <= fileEnd) /\
+  0 <= ovfFreed /\ 0 <= dataFreedN.
+Proof. exact commit_ends_spec. Qed.
+Print Assumptions C14_commit_keeps_used_pages_in_file.
+
+(* the statement is false of the code before the repair: a used overflow page ended up outside the file *)
+Theorem C14_old_commit_refuted : exists newData newMeta mx dEnd mEnd,
+  wfl 2 newData /\ wfl 2 newMeta /\ disjoint_l newData newMeta /\
+  (forall id, inl id newData -> id < dEnd) /\ (forall id, inl id newMeta -> id < mEnd) /\ dEnd <= mEnd /\
+  let '(_, _, dEnd2, mEnd2, _, _) := commit_ends_old newData newMeta mx dEnd mEnd in
+  exists id, id < mEnd /\ ~ inl id newData /\ ~ inl id newMeta /\ ~ id < Z.max dEnd2 mEnd2.
+Proof. exact commit_ends_old_refuted. Qed.
+Print Assumptions C14_old_commit_refuted.
+
+(* on a bounded file the data allocator never moves an end marker beyond the larger of its old value and the
+   limit: a file that already extends beyond a lowered limit is not extended any further (D17) *)
+Theorem C14_data_alloc_cont_limit : forall a t n r a' t',
+  0 < n -> 0 < maxPages a -> data_alloc_cont a t n = (r, a', t') ->
+  a_end (data a') <= Z.max (a_end (data a)) (maxPages a) /\
+  a_end (meta a') <= Z.max (a_end (meta a)) (maxPages a).
+Proof. exact data_alloc_cont_limit. Qed.
+Print Assumptions C14_data_alloc_cont_limit.
+
+Theorem C14_data_alloc_regions_limit : forall a t n regs cnt a' t',
+  0 < n -> 0 < maxPages a -> 0 <= avail (a_free (data a)) ->
+  data_alloc_regions a t n = (regs, cnt, a', t') ->
+  a_end (data a') <= Z.max (a_end (data a)) (maxPages a) /\
+  a_end (meta a') <= Z.max (a_end (meta a)) (maxPages a).
+Proof. exact data_alloc_regions_limit. Qed.
+Print Assumptions C14_data_alloc_regions_limit.
+
+Theorem C14_old_area_avail_refuted : exists a,
+  0 < maxPages a /\ maxPages a < a_end (data a) /\ 1 <= data_area_avail_old a.
+Proof. exact data_area_avail_old_refuted. Qed.
+Print Assumptions C14_old_area_avail_refuted.
 
 (* the lock discipline of the init transaction (the max-size update) releases everything: C09 *)
 Example C14_ex : grow_data_end 64 1024 64 70 = 70 /\ grow_data_end 64 66 64 70 = 66 /\ grow_data_end 64 0 64 70 = 70 /\ grow_data_end 64 32 64 70 = 64.
